@@ -77,36 +77,71 @@ func fnNames(fs []*ssa.Function) string {
 	return strings.Join(s, ",")
 }
 
+// headRemoval: the instruction that takes the head entry out of the queue: a call of removeHead, or - when that
+// method is written out where it was called - the store that advances the head cursor outside the function that
+// re-bases the ring (grow stores the ring field itself).
+func (c *Ctx) headRemoval() func(ssa.Instruction) bool {
+	rm := c.P.Func("sessions", "Ackqueue", "removeHead")
+	return func(in ssa.Instruction) bool {
+		if rm != nil {
+			call, ok := in.(*ssa.Call)
+			return ok && call.Common().StaticCallee() == rm
+		}
+		st, ok := in.(*ssa.Store)
+		if !ok {
+			return false
+		}
+		p := ir.PathOf(st.Addr)
+		return p.Class() == "sessions.Ackqueue.head" && !writesField(in.Parent(), "ring")
+	}
+}
+
 // headOnlyRelease: entries leave the queue only at the head, in order, and the
 // release stops at the first entry that has not reached a terminal state.
 func (c *Ctx) headOnlyRelease() {
 	acked := c.P.Func("sessions", "Ackqueue", "Acked")
 	rm := c.P.Func("sessions", "Ackqueue", "removeHead")
-	if acked == nil || rm == nil {
-		c.R.Unresolved("sessions.Ackqueue.Acked / removeHead")
+	isRm := c.headRemoval()
+	if acked == nil {
+		c.R.Unresolved("sessions.Ackqueue.Acked")
 		return
 	}
 	// who may advance the head
 	hw := c.whoWrites("sessions", "Ackqueue", "head")
-	okW := true
-	for _, f := range hw {
-		if f != rm && !writesField(f, "ring") { // grow re-bases the whole ring
-			okW = false
+	if rm != nil {
+		okW := true
+		for _, f := range hw {
+			if f != rm && !writesField(f, "ring") { // grow re-bases the whole ring
+				okW = false
+			}
 		}
-	}
-	c.R.Check(okW && len(hw) >= 1, ruleP9, "Ackqueue.head:written-only-by-removeHead-and-grow", c.P.Pos(rm.Pos()), "head is stored by: "+fnNames(hw), "head is stored by "+fnNames(hw)+": entries can leave the queue other than through the in-order release")
-	// who may call removeHead: Acked, or a drain helper that only Acked calls
-	var callers []string
-	okCallers := true
-	for _, s := range c.P.Callers(rm) {
-		p := s.Parent()
-		callers = append(callers, p.Name())
-		if p != acked && !(c.onlyCalledFrom(p, acked) && recvNamed(p) == "Ackqueue") {
-			okCallers = false
+		c.R.Check(okW && len(hw) >= 1, ruleP9, "Ackqueue.head:written-only-by-removeHead-and-grow", c.P.Pos(rm.Pos()), "head is stored by: "+fnNames(hw), "head is stored by "+fnNames(hw)+": entries can leave the queue other than through the in-order release")
+		// who may call removeHead: Acked, or a drain helper that only Acked calls
+		var callers []string
+		okCallers := true
+		for _, s := range c.P.Callers(rm) {
+			p := s.Parent()
+			callers = append(callers, p.Name())
+			if p != acked && !(c.onlyCalledFrom(p, acked) && recvNamed(p) == "Ackqueue") {
+				okCallers = false
+			}
 		}
+		sort.Strings(callers)
+		c.R.Check(okCallers && len(callers) >= 1, ruleP9, "removeHead:called-only-from-Acked", c.P.Pos(rm.Pos()), "removeHead is called only from Acked (or its drain helper)", "removeHead is called from "+strings.Join(callers, ",")+": entries are dropped outside the in-order release")
+	} else {
+		// the removal is written out: the head is advanced only in Acked (or a drain helper only Acked calls) and in grow
+		okW, nrm := true, 0
+		for _, f := range hw {
+			if writesField(f, "ring") {
+				continue
+			}
+			nrm++
+			if f != acked && !(c.onlyCalledFrom(f, acked) && recvNamed(f) == "Ackqueue") {
+				okW = false
+			}
+		}
+		c.R.Check(okW && nrm >= 1, ruleP9, "Ackqueue.head:written-only-by-removeHead-and-grow", c.P.Pos(acked.Pos()), "head is stored by: "+fnNames(hw), "head is stored by "+fnNames(hw)+": entries can leave the queue other than through the in-order release")
 	}
-	sort.Strings(callers)
-	c.R.Check(okCallers && len(callers) >= 1, ruleP9, "removeHead:called-only-from-Acked", c.P.Pos(rm.Pos()), "removeHead is called only from Acked (or its drain helper)", "removeHead is called from "+strings.Join(callers, ",")+": entries are dropped outside the in-order release")
 	// the function hosting the drain loop
 	host := c.ackedDrainHost()
 	if host == nil {
@@ -136,7 +171,7 @@ func (c *Ctx) headOnlyRelease() {
 	for _, l := range ir.Loops(acked) {
 		for b := range l.Blocks {
 			for _, in := range b.Instrs {
-				if call, ok := in.(*ssa.Call); ok && call.Common().StaticCallee() == rm {
+				if isRm(in) {
 					loop = l
 				}
 			}
@@ -146,13 +181,14 @@ func (c *Ctx) headOnlyRelease() {
 		c.R.Bad(ruleP4, "Acked:release-loop", c.P.Pos(acked.Pos()), "Acked has no loop that removes released entries")
 		return
 	}
-	var rmCall, app *ssa.Call
+	var rmCall ssa.Instruction
+	var app *ssa.Call
 	for b := range loop.Blocks {
 		for _, in := range b.Instrs {
+			if isRm(in) {
+				rmCall = in
+			}
 			if call, ok := in.(*ssa.Call); ok {
-				if call.Common().StaticCallee() == rm {
-					rmCall = call
-				}
 				if bi, ok := call.Common().Value.(*ssa.Builtin); ok && bi.Name() == "append" {
 					app = call
 				}
@@ -632,7 +668,8 @@ func (c *Ctx) occupancyByCount() {
 	acked := c.P.Func("sessions", "Ackqueue", "Acked")
 	insert := c.P.Func("sessions", "Ackqueue", "insert")
 	rm := c.P.Func("sessions", "Ackqueue", "removeHead")
-	if acked == nil || insert == nil || rm == nil {
+	_ = rm
+	if acked == nil || insert == nil {
 		return
 	}
 	// the release loop's guard (the loop may live in a drain helper)
@@ -734,7 +771,8 @@ func appendedValue(call *ssa.Call) ssa.Value {
 func (c *Ctx) ackedDrainHost() *ssa.Function {
 	acked := c.P.Func("sessions", "Ackqueue", "Acked")
 	rm := c.P.Func("sessions", "Ackqueue", "removeHead")
-	if acked == nil || rm == nil {
+	isRm := c.headRemoval()
+	if acked == nil {
 		return acked
 	}
 	cands := []*ssa.Function{acked}
@@ -747,7 +785,7 @@ func (c *Ctx) ackedDrainHost() *ssa.Function {
 		for _, l := range ir.Loops(f) {
 			for b := range l.Blocks {
 				for _, in := range b.Instrs {
-					if call, ok := in.(*ssa.Call); ok && call.Common().StaticCallee() == rm {
+					if isRm(in) {
 						return f
 					}
 				}
